@@ -343,10 +343,19 @@ impl FixtureDatabase {
                 self.visit_expr_for_names(&expr_stmt.value, ctx);
             }
             Stmt::Assign(assign) => {
+                for target in &assign.targets {
+                    self.visit_store_target_for_names(target, ctx);
+                }
                 self.visit_expr_for_names(&assign.value, ctx);
             }
             Stmt::AugAssign(aug_assign) => {
+                self.visit_store_target_for_names(&aug_assign.target, ctx);
                 self.visit_expr_for_names(&aug_assign.value, ctx);
+            }
+            Stmt::Delete(delete) => {
+                for target in &delete.targets {
+                    self.visit_store_target_for_names(target, ctx);
+                }
             }
             Stmt::Return(ret) => {
                 if let Some(ref value) = ret.value {
@@ -445,6 +454,7 @@ impl FixtureDatabase {
                 }
             }
             Stmt::AnnAssign(ann_assign) => {
+                self.visit_store_target_for_names(&ann_assign.target, ctx);
                 if let Some(ref value) = ann_assign.value {
                     self.visit_expr_for_names(value, ctx);
                 }
@@ -454,6 +464,30 @@ impl FixtureDatabase {
                     self.visit_expr_for_names(exc, ctx);
                 }
             }
+            _ => {}
+        }
+    }
+
+    /// Visit the target of an assignment or `del`: storing through `obj.attr` or `obj[key]`
+    /// reads `obj` (and `key`); a plain name target is a binding, not a use.
+    fn visit_store_target_for_names(&self, target: &Expr, ctx: &BodyScanContext) {
+        match target {
+            Expr::Attribute(attr) => self.visit_expr_for_names(&attr.value, ctx),
+            Expr::Subscript(subscript) => {
+                self.visit_expr_for_names(&subscript.value, ctx);
+                self.visit_expr_for_names(&subscript.slice, ctx);
+            }
+            Expr::Tuple(tuple) => {
+                for elt in &tuple.elts {
+                    self.visit_store_target_for_names(elt, ctx);
+                }
+            }
+            Expr::List(list) => {
+                for elt in &list.elts {
+                    self.visit_store_target_for_names(elt, ctx);
+                }
+            }
+            Expr::Starred(starred) => self.visit_store_target_for_names(&starred.value, ctx),
             _ => {}
         }
     }
